@@ -2,6 +2,45 @@
 import core
 from core import hx, gen_int, gen_mag
 
+
+# The table-like fragments the parser / series theorems rest on (scale-marker characters of float/src/parse.rs, the list of
+# index-slice expressions of the three text parsers, the arguments of iacoth in float/src/log.rs) are regenerated into
+# coq/gen/ParseSites.v when this plug-in is imported, i.e. before the proof phase of every run.  Unparseable source is not an
+# alarm: the last good copy stays (marked STALE) and the status is reported in the evidence by extra_phase.
+import os
+import sys
+sys.path.insert(0, os.path.join(core.ROOT, "tools"))
+try:
+    import translate_c16_r3
+    SITES_STATUS = translate_c16_r3.generate(core.REPO, os.path.join(core.COQ, "gen"))
+except Exception as _ex:
+    SITES_STATUS = "unparsed generator-failed: %s" % str(_ex)[:200]
+
+if os.path.realpath(core.REPO) != os.path.realpath("/repo") and os.path.realpath(core.COQ) == os.path.realpath(os.path.join(core.ROOT, "coq")):
+    import atexit
+
+    def _restore_sites():
+        try:
+            translate_c16_r3.generate("/repo", os.path.join(core.COQ, "gen"))
+        except Exception:
+            pass
+
+    atexit.register(_restore_sites)
+
+
+def extra_phase(tier, seed, exes, oracle):
+    word = SITES_STATUS.split(" ", 1)[0]
+    return {
+        "evaluations": 0,
+        "hist": {"translator_c16_r3:ParseSites:" + word: 1},
+        "nontrivial": [],
+        "samples": [{"fragment": "coq/gen/ParseSites.v (tools/translate_c16_r3.py from float/src/parse.rs, rational/src/parse.rs, "
+                                 "integer/src/parse/mod.rs, float/src/log.rs)", "status": SITES_STATUS,
+                     "tied_by": ("C16_scale_markers_ascii, C16_scale_markers_are_grammar, C16_slice_sites_modelled, C16_iacoth_arguments"
+                                 if word == "ok" else "correspondence run only (source not parsed; committed copy marked STALE)")}],
+        "failures": [],
+    }
+
 ID = "C16"
 READY = True
 ORACLE = "c16"
@@ -743,6 +782,20 @@ def gen_parse_inject(rng, out):
         out.append("d.%s.json %s" % (rng.choice(DE_TYPES), sx('"%s"' % esc)))
 
 
+
+STRUCT = ["0", "1", "7", "9", "a", "f", "_", ".", ".", "+", "-", "e", "E", "@", "p", "P", "b", "B", "o", "h", "H", "0x", "0X", "0b", "0o", "/", "/",
+          "\u00e9", "\u4e00", "\U0001f600", "\u00d7", "\u0080"]
+
+
+def gen_parse_struct(rng, out):
+    """well-formed UTF-8 made of the characters the parsers compute slice indices from (sign, radix prefix, point, scale markers
+    of every base, slash, underscore) with multi-byte characters in between: every find / rfind / [2..] path of the index-level models"""
+    n = rng.choice([1, 2, 3, 4, 5, 6, 8, 12])
+    t = "".join(rng.choice(STRUCT) for _ in range(n))
+    if rng.chance(1, 3):
+        t = rng.choice(["0x", "0X", "-0x", "+0x", "0x.", "0x_"]) + t
+    out.append("%s %s" % (rng.choice(parser_configs()), sx(t)))
+
 DE_TYPES = ["ubig", "ibig", "fbig", "dbig", "repr", "rbig", "relaxed"]
 JSON_PIECES = ['"', "0", "1", "-1", "1.5", "1e5", "[", "]", "{", "}", ",", ":", "null", "true", '"0x10"', '"12"', '"-12"', '"1/2"', '"1e5"', '"1.5"', '"inf"', '"-inf"',
                '"a"', '""', '"1/0"', '"_"', "[1,2]", "[true,[1]]", '{"significand":"1","exponent":0}', "[[1],0,0]", "18446744073709551616", "-9223372036854775809",
@@ -752,6 +805,8 @@ JSON_PIECES = ['"', "0", "1", "-1", "1.5", "1e5", "[", "]", "{", "}", ",", ":", 
 def gen_parse(rng, tier, out):
     if rng.chance(1, 3):
         return gen_parse_inject(rng, out)
+    if rng.chance(1, 3):
+        return gen_parse_struct(rng, out)
     k = rng.below(10)
     if k < 3:
         out.append("p.%s %s" % (rng.choice(PARSERS_S), sx(rand_string(rng))))
